@@ -128,6 +128,17 @@ func (g *Gen) verifyFunction(fn *ssa.Function, c *Contract) (res *VCResult) {
 	if c != nil && !c.ModAll && !c.Assumed {
 		g.setupFrame(f, c, env0)
 	}
+	if c != nil && c.ModAll && len(c.Keeps) > 0 && !c.Assumed {
+		// "modifies *" except the kept components: writes to those are only allowed at fresh objects
+		g.frameOn = true
+		g.frameOnlyKept = map[string]bool{}
+		for _, k := range g.keptComps(env0, c) {
+			g.frameOnlyKept[k] = true
+		}
+		g.frameAllowed = map[string][]string{}
+		g.frameNow0 = g.now(f.entry)
+		g.topEntry = f.entry
+	}
 	g.regionTerms = map[string]string{}
 	for _, kf := range g.regions {
 		e, err := parseContractExpr(kf.Region)
@@ -518,11 +529,15 @@ func (g *Gen) setupFrame(f *Frame, c *Contract, env0 *Env) {
 		}
 	}
 	g.frameNow0 = g.now(f.entry)
+	g.topEntry = f.entry
 }
 
 // frameWrite: obligation that a write to comp at ref is within the frame.
 func (g *Gen) frameWrite(comp, ref string) {
 	if !g.frameOn || g.cur == nil || comp == nowComp || comp == "IT" {
+		return
+	}
+	if g.frameOnlyKept != nil && !g.frameOnlyKept[comp] {
 		return
 	}
 	conds := []string{fmt.Sprintf("(> %s %s)", ref, g.frameNow0)}
@@ -544,6 +559,18 @@ func (g *Gen) frameWrite(comp, ref string) {
 func (g *Gen) frameHavocAll() {
 	if !g.frameOn || g.cur == nil {
 		return
+	}
+	if g.frameOnlyKept != nil {
+		// everything may change except the kept components: the callee must keep them too
+		ok := true
+		for k := range g.frameOnlyKept {
+			if !g.calleeKeeps[k] {
+				ok = false
+			}
+		}
+		if ok {
+			return
+		}
 	}
 	g.frameN++
 	g.oblige(fmt.Sprintf("frame#%d:havoc", g.frameN), "frame", g.cur.en, "false", "a call with unknown effects is reachable: the frame cannot be established", token.NoPos)
